@@ -569,3 +569,65 @@ def r17_4(ctx, repo):
                    'second entry equals n_parameters()')
     if n < 5:
         ctx.error(rule, 'only %d classes evaluated (floor 5)' % n)
+
+
+# -----------------------------------------------------------------------------
+# R05.9 — one support for the transform, the density and its gradient
+# -----------------------------------------------------------------------------
+def r05_9(ctx, repo):
+    """The three evaluation methods of an elementary population model
+    (`compute_individual_parameters`, `compute_log_likelihood`,
+    `compute_sensitivities`) reject the same scale parameters: their
+    support guards on the scale (`np.any(sigma < 0)` ...) compare with the
+    same operator.  A transform that rejects sigma = 0 while the density
+    accepts it (or the reverse) makes the hierarchical posterior disagree
+    with itself on the boundary."""
+    rule = 'R05.9'
+    import ast as _ast
+    from .layout import _elementary
+    n = 0
+    for cls in _elementary(repo):
+        ops = {}
+        for m in ('compute_individual_parameters', 'compute_log_likelihood',
+                  'compute_sensitivities'):
+            k, fn = repo.resolve(cls, m)
+            if fn is None or k != cls or repo.is_abstract(fn):
+                continue
+            for g in _ast.walk(fn):
+                if not (isinstance(g, _ast.If) and g.body and isinstance(
+                        g.body[-1], (_ast.Return, _ast.Raise))):
+                    continue
+                for c in _ast.walk(g.test):
+                    if isinstance(c, _ast.Compare) and len(c.ops) == 1 \
+                            and isinstance(c.left, _ast.Name) \
+                            and c.left.id.startswith(('sigma', 'std')) \
+                            and isinstance(c.comparators[0], _ast.Constant) \
+                            and c.comparators[0].value == 0:
+                        ops.setdefault(type(c.ops[0]).__name__, []).append(
+                            (m, g))
+        if not ops:
+            continue
+        n += 1
+        construct = '%s (support guards)' % cls
+        if len(ops) == 1:
+            m0, g0 = list(ops.values())[0][0]
+            ctx.ok(rule, repo.loc(g0, cls, m0), construct,
+                   'transform, density and gradient reject the same scale '
+                   'values (%s 0)' % {'Lt': '<', 'LtE': '<='}.get(
+                       list(ops)[0], list(ops)[0]))
+        else:
+            minority = min(ops.items(), key=lambda kv: len(kv[1]))
+            m0, g0 = minority[1][0]
+            ctx.violation(
+                rule, repo.loc(g0, cls, m0), '%s.%s' % (cls, m0),
+                'support guard differs',
+                '`%s` in %s compares the scale with another operator than '
+                'the sibling evaluation methods of %s (%s): the transform, '
+                'the density and its gradient disagree on whether the '
+                'boundary value belongs to the support' % (
+                    U(g0.test)[:50], m0, cls, ', '.join(
+                        '%s: %s' % (k_, sorted({x[0] for x in v}))
+                        for k_, v in sorted(ops.items()))))
+    if n < 3:
+        ctx.error(rule, 'only %d models with scale guards found (floor 3)'
+                  % n)
